@@ -73,41 +73,42 @@ type decision struct {
 }
 
 type sim struct {
-	c    *kernel.Ctx
-	ctx  context.Context
-	mode int
-	n, q, f int
-	slotOff int64
-	byz     []bool
-	inbox   []chan M
-	mctx    []context.Context
-	mcancel []context.CancelFunc
+	c            *kernel.Ctx
+	ctx          context.Context
+	mode         int
+	n, q, f      int
+	slotOff      int64
+	byz          []bool
+	inbox        []chan M
+	mctx         []context.Context
+	mcancel      []context.CancelFunc
 	stopOnDecide bool
 
-	mu        sync.Mutex
-	uid       int
-	sent      []msg // every message an honest member broadcast (adversary's knowledge)
-	proposed  map[int64]map[int64]bool // value -> set of rounds in which the designated leader pre-prepared it
-	decided   map[int64]decision
-	ndecided  map[int64]int
-	rounds    []int64
-	crashed   []bool
-	started   []bool
-	inputs    []int64
-	lastFault time.Duration
-	rstar     int64
-	unjustHonest int
-	bcasts    []int // per member: number of broadcasts so far
-	crashAt   map[int][2]int // member -> (broadcast index, recipients already served)
-	maxLat    time.Duration
-	done      []func()
+	mu                       sync.Mutex
+	uid                      int
+	sent                     []msg                    // every message an honest member broadcast (adversary's knowledge)
+	proposed                 map[int64]map[int64]bool // value -> set of rounds in which the designated leader pre-prepared it
+	decided                  map[int64]decision
+	ndecided                 map[int64]int
+	rounds                   []int64
+	crashed                  []bool
+	started                  []bool
+	inputs                   []int64
+	lastFault                time.Duration
+	rstar                    int64
+	unjustHonest             int
+	bcasts                   []int          // per member: number of broadcasts so far
+	crashAt                  map[int][2]int // member -> (broadcast index, recipients already served)
+	maxLat                   time.Duration
+	done                     []func()
 	dropPct, dupPct, longPct int
-	part      struct {
+	part                     struct {
 		from, until time.Duration
 		side        []bool
 	}
-	rules []dropRule
-	votes map[voteKey]int64
+	rules      []dropRule
+	votes      map[voteKey]int64
+	splitLocks bool
 }
 
 type voteKey struct {
@@ -180,7 +181,18 @@ func body(c *kernel.Ctx) {
 
 	s.byz = make([]bool, s.n)
 	nb := 0
-	if s.mode == modeByz {
+	// Scenario family "split locks": the network loses exactly the messages that leave one member
+	// prepared on the round-1 value, lets a different value be prepared in round 2 and decided by one
+	// member only, and makes a Byzantine member the leader of round 3 - the state in which every
+	// rule about prepared certificates in ROUND-CHANGE / PRE-PREPARE justifications is load-bearing.
+	splitLocks := s.mode == modeByz && verifrt.Intn("cfg", 5) == 4
+	if splitLocks {
+		nb = 1
+		s.byz[s.leader(3)] = true
+		sameInput = false
+		compareOn = false
+	}
+	if s.mode == modeByz && !splitLocks {
 		nb = 1 + verifrt.Intn("cfg", s.f)
 		for i := 0; i < nb; i++ {
 			p := verifrt.Intn("cfg", s.n)
@@ -215,7 +227,35 @@ func body(c *kernel.Ctx) {
 		}
 	}
 
-	if s.mode != modeTimely && verifrt.Intn("cfg", 2) == 1 {
+	if splitLocks {
+		var hon []int
+		for i := 0; i < s.n; i++ {
+			if !s.byz[i] {
+				hon = append(hon, i)
+			}
+		}
+		x := hon[verifrt.Intn("cfg", len(hon))] // the only member that prepares in round 1
+		z := hon[verifrt.Intn("cfg", len(hon))] // the only member that decides in round 2
+		all := func(v bool) []bool {
+			b := make([]bool, s.n)
+			for i := range b {
+				b[i] = v
+			}
+			return b
+		}
+		notX, notZ := all(true), all(true)
+		notX[x], notZ[z] = false, false
+		s.rules = []dropRule{
+			{typ: qbft.MsgPrepare, round: 1, from: all(true), to: notX},
+			{typ: qbft.MsgCommit, round: 1, from: all(true), to: all(true)},
+			{typ: qbft.MsgCommit, round: 2, from: all(true), to: notZ},
+		}
+		s.dropPct, s.longPct, s.part.side = 0, 0, nil
+		s.maxLat = time.Duration(1+verifrt.Intn("cfg", 150)) * time.Millisecond
+		s.stopOnDecide = true
+		s.splitLocks = true
+		verifrt.Probe("scenario:split-locks")
+	} else if s.mode != modeTimely && verifrt.Intn("cfg", 2) == 1 {
 		for k := 1 + verifrt.Intn("cfg", 4); k > 0; k-- {
 			r := dropRule{typ: qbft.MsgType(1 + verifrt.Intn("cfg", 4)), round: int64(1 + verifrt.Intn("cfg", 3)), from: make([]bool, s.n), to: make([]bool, s.n)}
 			allFrom := verifrt.Intn("cfg", 2) == 0
@@ -859,6 +899,28 @@ func (s *sim) adversary(alphabet []int64) {
 	moves := 3 + verifrt.Intn("a", 25)
 	byz := s.byzIDs()
 	honest := s.honestIDs()
+	if s.splitLocks {
+		// help the scenario along: vote with the round-1 proposal towards everyone (only the chosen
+		// member can reach the prepare quorum), then provide null ROUND-CHANGEs for the next rounds
+		verifrt.Go(func() {
+			for r := int64(1); r <= 4 && s.ctx.Err() == nil; r++ {
+				verifrt.Sleep(time.Duration(200+verifrt.Intn("a", 500)) * time.Millisecond)
+				for _, m := range s.observed(func(m msg) bool { return m.typ == qbft.MsgPrePrepare && m.round == r }) {
+					for _, bb := range byz {
+						for _, to := range honest {
+							s.advSend(to, s.forged(qbft.MsgPrepare, bb, r, m.val, 0, 0, nil))
+						}
+					}
+					break
+				}
+				for _, bb := range byz {
+					for _, to := range honest {
+						s.advSend(to, s.forged(qbft.MsgRoundChange, bb, r+1, 0, 0, 0, nil))
+					}
+				}
+			}
+		})
+	}
 	for i := 0; i < moves && s.ctx.Err() == nil; i++ {
 		verifrt.Sleep(time.Duration(verifrt.Intn("a", 9)) * 100 * time.Millisecond)
 		maxR := s.maxRound()
